@@ -95,6 +95,26 @@ if os.path.isdir(_D):
                   design=_c.get("design"), thorough=_c.get("thorough", True))
 
 
+ENGINE_TEXT = {
+    "compile-batch+pyrun": ("/verif/py", "Python drivers (py/gen.py grammar + independent translator, py/vlib.py pipeline) over `mc_core compile-batch` (the real compiler in-process, one fresh Compiler per program, worker processes) and py/pyrun.py under each target interpreter"),
+    "mc_core": ("/verif/harness/mc_core", "Rust binary linking the real erg crates by path; exhaustive indexed enumeration / explicit-state BFS with per-item oracle, parallel walk, watchdog, bisecting of aborts; sched-serve: fork server running one compilation per schedule under the cooperative scheduler; frame: REPL framing under every read/write split"),
+    "sched": ("/verif/py/sched.py", "deviation-bounded (preemption-bounded) exhaustive schedule explorer over `mc_core sched-serve` + the scheduler hooked into erg_common/erg_compiler under --cfg erg_verif; sequential build harness_seq/mc_seq"),
+    "mc_els": ("/verif/harness/mc_els", "Rust binary linking the real els crate: doc-bfs (explicit-state search on the document store), converge / rename (own LSP client driving a real Server through dispatch)"),
+}
+
+
+def engines(ids):
+    by = {}
+    for p in ids:
+        if p in CHECKS:
+            by.setdefault(CHECKS[p]["engine"], []).append(p)
+    out = []
+    for name, props in by.items():
+        path, text = ENGINE_TEXT.get(name, ("/verif/harness/" + name if os.path.isdir(os.path.join(HERE, "harness", name)) else "/verif/py", "see DESIGN.md §2 and the check's module docstring"))
+        out.append({"name": name, "path": path, "serves_properties": props, "kind_free_text": text})
+    return out
+
+
 def main():
     props = [json.loads(l) for l in open(os.path.join(HERE, "properties.jsonl"))]
     ids = [p["id"] for p in props]
@@ -132,12 +152,7 @@ def main():
             "source_commits": [h.split()[0] for h in hooks],
             "add_only": True,
         },
-        "engines": [
-            {"name": "compile-batch+pyrun", "path": "/verif/py", "serves_properties": [p for p in ids if p in CHECKS and CHECKS[p]["engine"] == "compile-batch+pyrun"],
-             "kind_free_text": "Python drivers (py/gen.py grammar + independent translator, py/vlib.py pipeline) over `mc_core compile-batch` (the real compiler in-process, one fresh Compiler per program, worker processes) and py/pyrun.py under each target interpreter"},
-            {"name": "mc_core", "path": "/verif/harness/mc_core", "serves_properties": [p for p in ids if p in CHECKS and CHECKS[p]["engine"] == "mc_core"],
-             "kind_free_text": "Rust binary linking the real erg crates by path; exhaustive indexed enumeration / explicit-state BFS with per-item oracle, parallel walk, watchdog, bisecting of aborts"},
-        ],
+        "engines": engines(ids),
         "checks": checks,
         "not_applicable": na,
         "notes": "All checks rebuild the harness from /repo's working tree (path dependencies) on every invocation. Known findings: /verif/known_findings.json.",
